@@ -47,8 +47,9 @@ def make_scratch(repo):
         s = os.path.join(repo, st)
         if not os.path.isdir(s):
             continue
-        shutil.copytree(s, os.path.join(d, st), copy_function=_link_or_copy,
-                        symlinks=True)
+        # real copies (not hard links): an in-place write to /repo must never leak into a scratch
+        # tree and vice versa
+        shutil.copytree(s, os.path.join(d, st), symlinks=True)
     return d
 
 
